@@ -20,7 +20,7 @@ ST = ("PASS", "FAIL", "SKIP")
 
 def gen_rules(rng, doc):
     """2-4 rule names; ~30% of files define one name twice with opposite `when` guards"""
-    o = gen.Opts(refs=False, types=False, calls=False, max_rules=4, max_lines=2, default=rng.random() < 0.4)
+    o = gen.Opts(refs=rng.random() < 0.5, types=False, calls=False, max_rules=4, max_lines=2, default=rng.random() < 0.4)      # half of the files: rules naming other rules (in bodies and `when` conditions)
     f = gen.gen_file(rng, doc, o)
     if o.default and not f["default"]:
         o.default = False
